@@ -1584,6 +1584,33 @@ impl HnswBackend {
         })
     }
 
+    /// Returns `true` if `data_dir` holds persisted documents although it may have no MANIFEST:
+    /// a snapshot file, or a WAL segment with at least one frame after its 4-byte header.
+    ///
+    /// WAL frames and snapshots are only ever written after the MANIFEST exists, so such a
+    /// directory has lost its MANIFEST and must not be treated as a brand-new database.
+    /// (A crash during the very first initialisation leaves at most a header-only WAL file.)
+    pub fn data_dir_has_persisted_state(data_dir: impl AsRef<Path>) -> bool {
+        let Ok(entries) = std::fs::read_dir(data_dir.as_ref()) else {
+            return false;
+        };
+        for entry in entries.flatten() {
+            let name = entry.file_name();
+            let name = name.to_string_lossy();
+            if name.starts_with("snapshot_") && name.ends_with(".snap") {
+                return true;
+            }
+            if name.starts_with("wal_") && name.ends_with(".wal") {
+                if let Ok(meta) = entry.metadata() {
+                    if meta.len() > 4 {
+                        return true;
+                    }
+                }
+            }
+        }
+        false
+    }
+
     fn wal_segment_name(wal_path: &Path) -> Result<String> {
         wal_path
             .file_name()
